@@ -7,7 +7,7 @@
 //! real `add_known_peer` / `KBucketEntry::insert`.
 use crate::util::*;
 use litep2p::{
-    protocol::libp2p::kademlia::verif::{ConnectionType, KBucketEntry, KademliaPeer, Key, RoutingTable},
+    protocol::libp2p::kademlia::verif::{ConnectionType, KBucketEntry, KademliaPeer, Key, RoutingTable, SchemaPeer},
     transport::Endpoint,
     types::ConnectionId,
     PeerId,
@@ -399,8 +399,21 @@ fn run_case(c: &[u64]) -> Option<(Vec<u64>, Vec<u64>)> {
                 match found {
                     Some(n) => {
                         let obs: Vec<u64> = n.addresses().iter().map(addr_id).collect();
+                        // the wire form of the entry (what a FIND_NODE reply carries) must name the
+                        // same addresses in the same order and the entry's connection type
+                        let wire = SchemaPeer::from(n);
+                        let wire_addrs: Vec<u64> = wire
+                            .addrs
+                            .iter()
+                            .filter_map(|a| Multiaddr::try_from(a.clone()).ok())
+                            .map(|a| addr_id(&a))
+                            .collect();
+                        let same = wire_addrs == obs
+                            && wire.addrs.len() == obs.len()
+                            && wire.connection == conn_code(n.verif_connection()) as i32
+                            && wire.id == n.verif_peer().to_bytes();
                         put_list(&mut case, &obs);
-                        out.push(1);
+                        out.push(if same { 1 } else { 2 });
                         put_list(&mut out, &obs);
                     }
                     None => {
